@@ -94,6 +94,22 @@ Proof.
 Qed.
 Print Assumptions C08_new_go_orig_refuted.
 
+(* the comparison must stay in the two-test form `b < a_t || b - a_t < t`: the single uint64 comparison
+   `b < a_t + t` is exact only while the sum fits; beyond (caller threshold within a_t of 2^64, or saturated) it
+   answers OK for a caller that ends below its threshold, and for b < a_t it wraps the balance (tokens minted) *)
+Theorem C08_new_sum_compare_exact : forall b amt t,
+  b < two64 -> amt + t < two64 -> debit_new_go_sum b amt t = debit_exact b amt t.
+Proof. exact debit_new_go_sum_exact. Qed.
+Print Assumptions C08_new_sum_compare_exact.
+
+Theorem C08_new_sum_compare_refuted :
+  (exists b amt t nb, b < two64 /\ amt < two64 /\ t < two64 /\ debit_exact b amt t = None /\
+                      debit_new_go_sum b amt t = Some nb /\ nb < t) /\
+  (exists b amt t nb, b < two64 /\ amt < two64 /\ t < two64 /\ debit_exact b amt t = None /\
+                      debit_new_go_sum b amt t = Some nb /\ b < nb + amt).
+Proof. exact debit_new_go_sum_refuted. Qed.
+Print Assumptions C08_new_sum_compare_refuted.
+
 (* non-vacuity: a sequence that creates a service, transfers, is refused with CASH, and checkpoints *)
 Definition ex_ops : list op :=
   [ONew (repeat 9 32) 10 5 6 0 0; OTransfer 200 300 0 [1; 2]; OCheckpoint; OTransfer 200 400 0 []; OUpgrade (repeat 3 32) 1 1].
